@@ -2,6 +2,7 @@
 //! sequential code of nuts-rs). One sub-command per property id.
 
 mod common;
+mod c02;
 mod c05;
 mod c06;
 mod c07;
@@ -42,6 +43,7 @@ fn main() {
     }
     // A panic that escapes a check is a machinery error, never a verdict.
     let res = std::panic::catch_unwind(|| match id.as_str() {
+        "C02" => c02::run(tier, replay),
         "C05" => c05::run_check(tier, replay),
         "C06" => c06::run(tier, replay),
         "C07" => c07::run(tier, replay),
